@@ -18,6 +18,17 @@
     gives every C declaration its own slot, so block scoping/shadowing needs no run-time treatment.
   * expressions have no side effects (the translator accepts `=`, `op=`, `++`, `--` only as statements).
   * loops consume one unit of fuel per iteration; straight-line code consumes none.
+  * constructs of the q120 reference sources (`Properties/SrcQ120.lean`): unsigned `%` (`BinOp.mod`, zero divisor
+    = `Err.ub`); `&` on signed operands (on the two's-complement patterns); element access through a pointer
+    LOCAL (`Expr.pload` / `Stmt.pstore`, the `p[i]` form of a `uint64_t*` view); the uint32 view of a buffer of
+    64-bit cells, little endian (`Expr.pload32` / `Stmt.pstore32`: word `o` is half `o % 2` of cell `o / 2`, a
+    store is a read-modify-write of the cell, `half32` / `setHalf32`); local arrays (`uint64_t s[8]`) as `len`
+    consecutive slots with a bounds-checked index (`Expr.avar` / `Stmt.aset`, out of range = `Err.oob`).
+  * opaque calls (`Stmt.extcall name scalars pointers`, the arithmetic kernels of the FFT64 module layer reached
+    through a MODULE's precomputation objects): their effect on the memory is the `ExtSem` PARAMETER of the
+    interpreter (`execS K`, `execK`, `runK`); `exec` / `run` (all earlier properties) use `ExtSem.none`, under which an
+    `extcall` is `Err.unsupported`.  Opaque calls consume no fuel.  `Properties/SrcMod*.lean` instantiate `K` with the
+    kernel record of `Spq/ModuleHeap.lean` (`SpqProofs/Lemmas/SrcMod.lean`, `modSem`).
 -/
 import Spq.Mach
 import Spq.F64
@@ -65,7 +76,7 @@ def Ty.isUnsigned : Ty → Bool
 
 inductive UnOp | neg | bnot | lnot
   deriving DecidableEq, Repr
-inductive BinOp | add | sub | mul | band | bor | bxor | shl | shr | lt | le | gt | ge | eq | ne
+inductive BinOp | add | sub | mul | band | bor | bxor | shl | shr | lt | le | gt | ge | eq | ne | mod
   deriving DecidableEq, Repr
 
 /-- binary64 operations on patterns stored as `Int` -/
@@ -93,7 +104,11 @@ def evalBin (op : BinOp) (ty : Ty) (x y : Int) : R Int :=
   | .add => if ty = .f64 then .ok (fadd x y) else .ok (ty.wrap (x + y))
   | .sub => if ty = .f64 then .ok (fsub x y) else .ok (ty.wrap (x - y))
   | .mul => if ty = .f64 then .ok (fmul x y) else .ok (ty.wrap (x * y))
-  | .band => if ty.isUnsigned then .ok ((x.toNat &&& y.toNat : Nat) : Int) else .err .unsupported
+  | .band =>
+    if ty.isUnsigned then .ok ((x.toNat &&& y.toNat : Nat) : Int)
+    else if ty = .f64 then .err .unsupported
+    -- signed `&`: on the two's-complement bit patterns
+    else .ok (ty.wrap (((x % (2:Int) ^ ty.bits).toNat &&& (y % (2:Int) ^ ty.bits).toNat : Nat) : Int))
   | .bor => if ty.isUnsigned then .ok ((x.toNat ||| y.toNat : Nat) : Int) else .err .unsupported
   | .bxor => if ty.isUnsigned then .ok ((x.toNat ^^^ y.toNat : Nat) : Int) else .err .unsupported
   | .shl =>
@@ -108,6 +123,8 @@ def evalBin (op : BinOp) (ty : Ty) (x y : Int) : R Int :=
   | .ge => if ty = .f64 then .err .unsupported else .ok (b2i (x ≥ y))
   | .eq => if ty = .f64 then .err .unsupported else .ok (b2i (x = y))
   | .ne => if ty = .f64 then .err .unsupported else .ok (b2i (x ≠ y))
+  -- `%` on unsigned operands (the only use in the translated sources); a zero divisor is undefined behaviour
+  | .mod => if ty.isUnsigned then (if y = 0 then .err .ub else .ok (x % y)) else .err .unsupported
 
 /-- base of a pointer expression `base + offset` (offset in 64-bit cells) -/
 inductive PBase
@@ -129,6 +146,9 @@ inductive Expr
   | isNull (ptr : Nat)                          -- `p == 0` for a pointer parameter
   | ptrEq (b1 : PBase) (o1 : Expr) (b2 : PBase) (o2 : Expr)   -- `(b1 + o1) == (b2 + o2)` on pointers
   | ptrLt (b1 : PBase) (o1 : Expr) (b2 : PBase) (o2 : Expr)   -- `(b1 + o1) < (b2 + o2)`, same buffer
+  | pload (b : PBase) (o : Expr)                -- `(b + o)[0]`, 64-bit cell, any pointer base
+  | pload32 (b : PBase) (o : Expr)              -- `((uint32_t*)b)[o]`: half `o % 2` of cell `b + o / 2` (little endian)
+  | avar (base len : Nat) (idx : Expr)          -- element `idx` of a local array held in slots `base … base+len-1`
   deriving Repr, Inhabited
 
 /-- vector expressions of the AVX kernels: `lanes` consecutive 64-bit cells (`__m256i` = 4, `__m128i` = 2) -/
@@ -157,11 +177,23 @@ inductive Stmt
   | call (body : Stmt) (nslots : Nat) (sargs : List Expr) (pargs : List (PBase × Expr))
   | ret                                          -- `return;`
   | cont                                         -- `continue;`
+  | pstore (b : PBase) (o e : Expr)              -- `(b + o)[0] = e;`
+  | pstore32 (b : PBase) (o e : Expr)            -- `((uint32_t*)b)[o] = e;` (the other half of the cell is kept)
+  | aset (base len : Nat) (idx e : Expr)         -- `a[idx] = e;` on a local array
+  /-- call of a function the translator keeps OPAQUE (an arithmetic kernel reached through a function pointer or a
+      precomputation object of a MODULE: `reim_fft(module->mod.fft64.p_fft, p)`, `reim4_*`, …): its effect on the
+      memory is given by the `ExtSem` parameter of the interpreter -/
+  | extcall (name : String) (sargs : List Expr) (pargs : List (PBase × Expr))
   deriving Repr, Inhabited
 
 /-- binding of a pointer parameter: `none` = null, `some (b, off)` = cell `off` of buffer `b` -/
 abbrev Ptr := Option (Nat × Nat)
 abbrev Mem := Array (Array Int)
+
+/-- semantics of the opaque calls (`Stmt.extcall`): name, scalar arguments, pointer arguments, memory ↦ memory.
+    A PARAMETER of the interpreter (`execS`, `execK`, `runK`); `exec` / `run` use `ExtSem.none`. -/
+abbrev ExtSem := String → List Int → List Ptr → Mem → R Mem
+def ExtSem.none : ExtSem := fun _ _ _ _ => .err .unsupported
 
 structure State where
   env : List Int
@@ -261,6 +293,15 @@ def ptrLtVal (p q : Ptr) : R Int :=
   | some (b1, o1), some (b2, o2) => if b1 = b2 then .ok (b2i (o1 < o2)) else .err .ub
   | _, _ => .err .null
 
+/-- the 32-bit half `h` (0 = low, 1 = high) of a 64-bit cell (any representative of its bit pattern) -/
+@[inline] def half32 (c : Int) (h : Int) : Int :=
+  if h = 0 then (c % 18446744073709551616) % 4294967296 else (c % 18446744073709551616) / 4294967296
+
+/-- the cell with half `h` replaced by the low 32 bits of `v` -/
+@[inline] def setHalf32 (c : Int) (h : Int) (v : Int) : Int :=
+  if h = 0 then ((c % 18446744073709551616) / 4294967296) * 4294967296 + v % 4294967296
+  else (c % 18446744073709551616) % 4294967296 + (v % 4294967296) * 4294967296
+
 def eval (Γ : List Ptr) (σ : State) : Expr → R Int
   | .lit v => .ok v
   | .var x => .ok (lget σ.env x)
@@ -280,6 +321,12 @@ def eval (Γ : List Ptr) (σ : State) : Expr → R Int
   | .ptrLt b1 o1 b2 o2 =>
     (eval Γ σ o1).bind fun v1 => (eval Γ σ o2).bind fun v2 =>
       (ptrAt Γ σ.env b1 v1).bind fun p1 => (ptrAt Γ σ.env b2 v2).bind fun p2 => ptrLtVal p1 p2
+  | .pload b o => (eval Γ σ o).bind fun v => (ptrAt Γ σ.env b v).bind fun p => loadCell σ.mem p 0
+  | .pload32 b o => (eval Γ σ o).bind fun v =>
+      if v < 0 then .err .oob
+      else (ptrAt Γ σ.env b (v / 2)).bind fun p => (loadCell σ.mem p 0).bind fun c => .ok (half32 c (v % 2))
+  | .avar base len idx => (eval Γ σ idx).bind fun v =>
+      if 0 ≤ v ∧ v < (len : Int) then .ok (lget σ.env (base + v.toNat)) else .err .oob
 
 /-- condition of `if` / loops -/
 def evalB (Γ : List Ptr) (c : Expr) (σ : State) : R Bool :=
@@ -347,25 +394,25 @@ def callRet (σ : State) (x : Out) : Out :=
   | .ok (_, σ') => .ok (.norm, { σ with mem := σ'.mem })
   | .err e => .err e
 
-def execS : Stmt → List Ptr → Nat → State → Out
+def execS (K : ExtSem) : Stmt → List Ptr → Nat → State → Out
   | .skip, _, _, σ => .ok (.norm, σ)
   | .assign x e, Γ, _, σ => (eval Γ σ e).bind fun v => .ok (.norm, { σ with env := lset σ.env x v })
   | .store p i e, Γ, _, σ =>
     (eval Γ σ i).bind fun iv => (eval Γ σ e).bind fun v =>
       (storeCell σ.mem (Γ.getD p none) iv v).bind fun m => .ok (.norm, { σ with mem := m })
   | .seq a b, Γ, f, σ =>
-    match execS a Γ f σ with
-    | .ok (.norm, σ') => execS b Γ f σ'
+    match execS K a Γ f σ with
+    | .ok (.norm, σ') => execS K b Γ f σ'
     | r => r
-  | .ite c t e, Γ, f, σ => (evalB Γ c σ).bind fun b => if b then execS t Γ f σ else execS e Γ f σ
-  | .while c b, Γ, f, σ => loopN (evalB Γ c) (fun f σ => execS b Γ f σ) f σ
+  | .ite c t e, Γ, f, σ => (evalB Γ c σ).bind fun b => if b then execS K t Γ f σ else execS K e Γ f σ
+  | .while c b, Γ, f, σ => loopN (evalB Γ c) (fun f σ => execS K b Γ f σ) f σ
   | .for i c inc b, Γ, f, σ =>
-    match execS i Γ f σ with
+    match execS K i Γ f σ with
     | .ok (.norm, σ1) =>
-      loopN (evalB Γ c) (fun f σ => thenStep (execS b Γ f σ) fun σ' => execS inc Γ f σ') f σ1
+      loopN (evalB Γ c) (fun f σ => thenStep (execS K b Γ f σ) fun σ' => execS K inc Γ f σ') f σ1
     | r => r
   | .doWhile b c, Γ, f, σ =>
-    thenStep (execS b Γ f σ) fun σ' => loopN (evalB Γ c) (fun f σ => execS b Γ f σ) f σ'
+    thenStep (execS K b Γ f σ) fun σ' => loopN (evalB Γ c) (fun f σ => execS K b Γ f σ) f σ'
   | .memcpy d s n, Γ, _, σ =>
     (eval Γ σ n).bind fun nv =>
       (memcpyCells σ.mem (Γ.getD d none) (Γ.getD s none) nv).bind fun m => .ok (.norm, { σ with mem := m })
@@ -380,12 +427,29 @@ def execS : Stmt → List Ptr → Nat → State → Out
       else .err .unsupported
   | .call body nslots sargs pargs, Γ, f, σ =>
     (evalList Γ σ sargs).bind fun vs => (evalPtrs Γ σ pargs).bind fun ps =>
-      callRet σ (execS body ps f { env := vs ++ List.replicate (nslots - vs.length) 0, mem := σ.mem })
+      callRet σ (execS K body ps f { env := vs ++ List.replicate (nslots - vs.length) 0, mem := σ.mem })
   | .ret, _, _, σ => .ok (.ret, σ)
   | .cont, _, _, σ => .ok (.cont, σ)
+  | .pstore b o e, Γ, _, σ =>
+    (eval Γ σ o).bind fun ov => (eval Γ σ e).bind fun v => (ptrAt Γ σ.env b ov).bind fun p =>
+      (storeCell σ.mem p 0 v).bind fun m => .ok (.norm, { σ with mem := m })
+  | .pstore32 b o e, Γ, _, σ =>
+    (eval Γ σ o).bind fun ov => (eval Γ σ e).bind fun v =>
+      if ov < 0 then .err .oob
+      else (ptrAt Γ σ.env b (ov / 2)).bind fun p => (loadCell σ.mem p 0).bind fun c =>
+        (storeCell σ.mem p 0 (setHalf32 c (ov % 2) v)).bind fun m => .ok (.norm, { σ with mem := m })
+  | .aset base len idx e, Γ, _, σ =>
+    (eval Γ σ idx).bind fun iv => (eval Γ σ e).bind fun v =>
+      if 0 ≤ iv ∧ iv < (len : Int) then .ok (.norm, { σ with env := lset σ.env (base + iv.toNat) v })
+      else .err .oob
+  | .extcall name sargs pargs, Γ, _, σ =>
+    (evalList Γ σ sargs).bind fun vs => (evalPtrs Γ σ pargs).bind fun ps =>
+      (K name vs ps σ.mem).bind fun m => .ok (.norm, { σ with mem := m })
 
 /-- `exec Γ s fuel σ`: run statement `s` with pointer parameters `Γ` -/
-@[reducible] def exec (Γ : List Ptr) (s : Stmt) (f : Nat) (σ : State) : Out := execS s Γ f σ
+@[reducible] def exec (Γ : List Ptr) (s : Stmt) (f : Nat) (σ : State) : Out := execS ExtSem.none s Γ f σ
+/-- the same with a semantics for the opaque calls -/
+@[reducible] def execK (K : ExtSem) (Γ : List Ptr) (s : Stmt) (f : Nat) (σ : State) : Out := execS K s Γ f σ
 
 /-! ### functions -/
 structure Fn where
@@ -409,6 +473,9 @@ def memOf : Out → R Mem
 
 def run (fuel : Nat) (fn : Fn) (args : List Int) (Γ : List Ptr) (m : Mem) : R Mem :=
   memOf (exec Γ fn.body fuel { env := args ++ List.replicate (fn.nslots - args.length) 0, mem := m })
+
+def runK (K : ExtSem) (fuel : Nat) (fn : Fn) (args : List Int) (Γ : List Ptr) (m : Mem) : R Mem :=
+  memOf (execK K Γ fn.body fuel { env := args ++ List.replicate (fn.nslots - args.length) 0, mem := m })
 
 /-- the result of a value-returning function (`none`: the function has no result slot) -/
 def runVal (fuel : Nat) (fn : Fn) (args : List Int) (Γ : List Ptr) (m : Mem) : R (Option Int) :=
